@@ -22,7 +22,7 @@ in a package" say so (`PkgsNodup`, `Nodup`).
 The model describes the code with fixes_proposed/C01-1 … C01-14 (and C10-2, C12-1) applied: the six
 combinations that were first mirrored as known findings (single-phase feed onto a multi-phase outlet, two
 argument forms of `Stream.copy_flow`, three defects of `MultiStream.copy_flow`) are modelled as repaired,
-and their theorems are the full ones.
+and their theorems are the full ones.  Phase views (`ms[p]`) are operands of separating and mixing.
 -/
 namespace ThermoVerif.Props.C01
 open ThermoVerif.Flow ThermoVerif.FlowOps
@@ -99,6 +99,22 @@ theorem separate_restores {w w1 w2 : World} {r a b : Nat} (hb : b ≠ r)
     (hmix : mix w r [a, b] = .ok w1) (hsep : sep w1 r b = .ok w2) (c : Nat) :
     w2.amount r c = w.amount a c :=
   FlowOps.separate_restores hb hmix hsep c
+
+/-! ### phase views as operands (`ms['g']`) -/
+
+/-- **Separating with a phase view as the stream to take out** — `ms.separate_out(ms['g'])`, or a view of any
+other stream: `x` goes down by exactly what the view holds (`refAmount`: the row of that phase), so the
+other phases of `x` are what remains. -/
+theorem sepR_total {w w' : World} {x : Nat} {y : Ref} (h : sepR w x y = .ok w') (hx : x < w.strms.length)
+    (c : Nat) : w'.amount x c = w.amount x c - refAmount w y c :=
+  FlowOps.sepR_total h hx c
+
+/-- **Mixing with phase views among the inlets** (also views of the receiver itself): the receiver holds
+the sum of what the operands held. -/
+theorem mixR_total {w w' : World} {r : Nat} {ins : List Ref} (h : mixR w r ins = .ok w')
+    (hr : r < w.strms.length) (c : Nat) :
+    w'.amount r c = rsum (ins.map (fun x => refAmount w x c)) :=
+  FlowOps.mixR_total h hr c
 
 /-! ### copy with removal -/
 
@@ -227,6 +243,12 @@ example : okAmount (copySingle w0 3 1 (.many [0]) true false) 1 0 = some 0 := by
 example : okAmount (copySingle w0 3 1 (.many [0]) true false) 1 2 = some 4 := by decide +kernel
 example : okAmount (scale w0 2 (3/2)) 2 0 = some (9/4) := by decide +kernel
 
+-- one phase separated out of its own multi-phase stream: the gas row (water 1) goes, the liquid row (ethanol 1/2) stays
+example : okAmount (sepR w0 0 (.view 0 'g')) 0 0 = some 0 ∧ okAmount (sepR w0 0 (.view 0 'g')) 0 1 = some (1/2) := by
+  decide +kernel
+-- the receiver's own liquid phase and another stream's solid phase among the inlets
+example : okAmount (mixR w0 0 [.view 0 'l', .view 2 's', .strm 0]) 0 1 = some 1 ∧
+          okAmount (mixR w0 0 [.view 0 'l', .view 2 's', .strm 0]) 0 0 = some (5/2) := by decide +kernel
 -- a single-phase feed onto a multi-phase outlet (C01-9): the outlet becomes single-phase at the feed's phase
 example : okAmount (split w0 4 0 3 (.scalar (1/4))) 0 0 = some 2 ∧
           okAmount (split w0 4 0 3 (.scalar (1/4))) 3 0 = some 6 := by decide +kernel
